@@ -7,6 +7,7 @@
   3. lifting to n dimensions: `AxesOK gs ws ⇔ SingleWriter gs ws` (a box covers a chunk iff each axis does).
   4. boundaries of regular grids and of `splitChunksizes`; `_fix_copy_chunks`.
   5. region stores.
+  6. the guards added to `_store_array` by the fixes d416aac / ba97b91.
 -/
 import CubedModel.Model.Grid
 
@@ -730,5 +731,57 @@ theorem axesOK_self (gs : List (List Nat)) (hpos : ∀ g ∈ gs, Pos g) : AxesOK
   have := axesOK_map (fun g => g) (fun g => g) gs
     (fun g hg => axis1_of_refines g g (hpos g hg) rfl (refines_refl g))
   simpa using this
+
+/-! ## 6. the repaired `_store_array` (d416aac, ba97b91) -/
+
+theorem clampIdx_le (n : Nat) (i : Int) : clampIdx n i ≤ n := by
+  unfold clampIdx
+  split
+  · omega
+  · exact Nat.min_le_right _ _
+
+theorem sliceIndices_le (n : Nat) (s : SliceReq) : (sliceIndices n s).1 ≤ n ∧ (sliceIndices n s).2 ≤ n := by
+  unfold sliceIndices
+  constructor
+  · cases s.start <;> simp [clampIdx_le]
+  · cases s.stop <;> simp [clampIdx_le]
+
+theorem regionAccept_spec (nt ct cs : Nat) (s : SliceReq) (a b : Nat) (h : regionAccept nt ct s = some (a, b)) :
+    (s.step = none ∨ s.step = some 1) ∧ (a, b) = sliceIndices nt s ∧ a ≤ nt ∧ b ≤ nt ∧
+      RegionAxis.aligned ⟨nt, ct, a, b, cs⟩ = true := by
+  unfold regionAccept at h
+  split at h
+  · rename_i hs
+    simp only at h
+    split at h
+    · rename_i hal
+      simp only [Option.some.injEq] at h
+      have hle := sliceIndices_le nt s
+      rw [h] at hal hle
+      simp only at hal hle
+      refine ⟨hs, h.symm, hle.1, hle.2, ?_⟩
+      simp only [RegionAxis.aligned, Bool.and_eq_true, Bool.or_eq_true, beq_iff_eq]
+      exact hal
+    · simp at h
+  · simp at h
+
+theorem effective_tasks (r : RegionAxis) : r.effective.tasks = r.tasks := rfl
+
+theorem regionTasks_effective : ∀ (axes : List RegionAxis),
+    regionTasks (axes.map RegionAxis.effective) = regionTasks axes
+  | [] => rfl
+  | r :: rs => by simp only [List.map_cons, regionTasks, regionTasks_effective rs, effective_tasks]
+
+/-- after the inserted rechunk the source grid agrees with the target grid restricted to the region. -/
+theorem effective_chunks_agree (r : RegionAxis) (hct : 0 < r.ct) (hcs : 0 < r.cs) (hab : r.a < r.b) :
+    0 < r.effective.cs ∧ (r.effective.cs = r.effective.ct ∨
+      (r.effective.b - r.effective.a ≤ r.effective.cs ∧ r.effective.b - r.effective.a ≤ r.effective.ct)) := by
+  obtain ⟨nt, ct, a, b, cs⟩ := r
+  simp only [RegionAxis.effective] at *
+  split <;> omega
+
+theorem storeGuard_iff (axes : List StoreReq) :
+    storeGuard axes = true ↔ ∀ a ∈ axes, a.src % a.tgt = 0 ∨ a.n ≤ a.src := by
+  simp [storeGuard, StoreReq.alignedB, List.all_eq_true]
 
 end Cubed.Grid
